@@ -175,7 +175,7 @@ func init() {
 		ruleShapeFaults(shapeConfig{label: "geo measures", keep: inPkgs("geo.", "internal/length."), floor: 5}),
 		ruleBoundAsPolygon,
 		ruleRunOnce(inPkgs("geo.", "internal/length."), 8),
-		ruleCompose(concatSpecs(geoAreaSpecs, geoLengthSpecs), 40),
+		ruleCompose(concatSpecs(geoAreaSpecs, geoLengthSpecs, geoRingInvarianceSpecs, geoSymmetrySpecs), 62),
 	)
 
 	register("C11",
@@ -196,7 +196,7 @@ func init() {
 		ruleAreaFlag,
 		ruleVertexProvenance,
 		ruleCompactionIndex(inPkgs("simplify."), 4),
-		ruleCompose(simplifySpecs, 60),
+		ruleCompose(concatSpecs(simplifySpecs, triangleAreaSpecs), 63),
 	)
 
 	register("C15",
